@@ -29,7 +29,6 @@ import (
 	"github.com/ethereum/go-ethereum/crypto"
 	"github.com/ethereum/go-ethereum/internal/verif/mc"
 	"github.com/ethereum/go-ethereum/rlp"
-	"github.com/holiman/uint256"
 )
 
 // c15Acct is the expected access-list content of one account (per transaction or merged per block).
@@ -718,5 +717,3 @@ func TestVerif_C15(t *testing.T) {
 		c15Explore(r, "change-restore", "contract", c15ChangeRestoreOps(false), 6)
 	})
 }
-
-var _ = uint256.NewInt
